@@ -4,7 +4,7 @@ import schema as S
 import refs as R
 import common
 from common import CERT_FN, CSR_FN, CRL_FN, SIGN_DER
-from interp import core, places, calls_of, roots, Interp, DerV, CallV, StructV, PhiV, Via, Def, MutV
+from interp import known_fns, core, places, calls_of, roots, Interp, DerV, CallV, StructV, PhiV, Via, Def, MutV
 
 PROP = "C01"
 CONFIGS_QUICK = ["K1", "K2", "K3"]
@@ -180,6 +180,8 @@ def check_wrap(cfg, crate, rep):
         # the buffer it fills may take part in computing the value that is written (no re-encoding, trimming, padding)
         def _sig_ok(c_):
             last_ = c_.split("::")[-1]
+            if c_ in crate.bodies and c_ not in known_fns(crate.name) and "hir" in crate.bodies[c_]:
+                return True         # a helper added by a later change: it was inlined, what it calls is in the list itself
             if c_ in crate.bodies and ((crate.bodies[c_].get("hir") or {}).get("ty") or "") in ("error::Error", "Error"):
                 return True         # a local constructor of the crate's error value (handed to map_err / or_else)
             return last_ in ("sign", "sign_der", "_err", "map_err", "as_ref", "as_slice", "to_vec", "from_elem", "with_capacity", "new", "rsa_key_pair_public_modulus_len", "public_modulus_len", "public_key", "modulus_len", "deref", "into", "from", "clone", "as_mut_slice", "as_mut") \
